@@ -61,15 +61,337 @@ Proof.
       apply fstate_eqb_spec in H. congruence.
 Qed.
 
-(* F-C19b: the faithful model violates the property for a pre-existing file with a second hard link whose
-   content partly matches: matching blobs are skipped although createFile starts from an empty file *)
-Lemma hardlinked_reuse_refuted :
-  exists o p blobs d, restore_file o p blobs = (FReg d, false) /\ should_overwrite o p = true /\
-                      trusted o p blobs = false /\ d <> concat blobs.
+(* ================= exactness ================= *)
+(* list kit *)
+Lemma firstn_app_exact {A} (a b : list A) : firstn (length a) (a ++ b) = a.
+Proof. induction a as [|x a IH]; cbn; [destruct b; reflexivity | rewrite IH; reflexivity]. Qed.
+
+Lemma skipn_app_exact {A} (a b : list A) : skipn (length a) (a ++ b) = b.
+Proof. induction a as [|x a IH]; cbn; [reflexivity | exact IH]. Qed.
+
+Lemma skipn_app_plus {A} (a b : list A) n : skipn (length a + n) (a ++ b) = skipn n b.
+Proof. induction a as [|x a IH]; cbn; [reflexivity | exact IH]. Qed.
+
+Lemma skipn_skipn' {A} (l : list A) : forall a b, skipn a (skipn b l) = skipn (b + a) l.
 Proof.
-  exists (mkO OwAlways true false false true),
-         (PReg [1;1;1;9;1;1;1;1]%N true true false), [[1;1;1;0]%N; [1;1;1;1]%N], [1;1;1;0;0;0;0;0]%N.
-  vm_compute. repeat split; discriminate.
+  induction l as [|x l IH]; intros a b.
+  - rewrite !skipn_nil. reflexivity.
+  - destruct b; cbn [skipn plus]; [reflexivity | apply IH].
+Qed.
+
+Lemma firstn_add {A} (l : list A) : forall a k, firstn (a + k) l = firstn a l ++ firstn k (skipn a l).
+Proof.
+  induction l as [|x l IH]; intros a k.
+  - rewrite !firstn_nil, skipn_nil, firstn_nil. reflexivity.
+  - destruct a; cbn [plus firstn skipn app]; [reflexivity | rewrite IH; reflexivity].
+Qed.
+
+Lemma zeros_app a b : zeros (a + b) = zeros a ++ zeros b.
+Proof. unfold zeros. apply repeat_app. Qed.
+
+Lemma zeros_length n : length (zeros n) = n.
+Proof. unfold zeros. apply repeat_length. Qed.
+
+Lemma total_cons b r : total (b :: r) = length b + total r.
+Proof. unfold total. cbn [concat]. apply app_length. Qed.
+
+(* writes *)
+Lemma write_at_seg pre seg rest b : length seg = length b ->
+  write_at (pre ++ seg ++ rest) (length pre) b = pre ++ b ++ rest.
+Proof.
+  intros Hl. unfold write_at. destruct b as [|x b'].
+  - destruct seg; [reflexivity | discriminate].
+  - unfold pad. rewrite <- app_assoc. rewrite firstn_app_exact.
+    rewrite skipn_app_plus. rewrite <- Hl. rewrite skipn_app_exact. reflexivity.
+Qed.
+
+Lemma zp_split b : b = zeros (zero_prefix_len b) ++ skipn (zero_prefix_len b) b /\ zero_prefix_len b <= length b.
+Proof.
+  induction b as [|x b [IH1 IH2]]; cbn [zero_prefix_len].
+  - split; [reflexivity | cbn; lia].
+  - destruct (N.eqb x 0) eqn:E.
+    + apply N.eqb_eq in E; subst x. cbn [zeros repeat skipn app length]. split; [f_equal; exact IH1 | lia].
+    + cbn. split; [reflexivity | lia].
+Qed.
+
+Lemma file_write_seg sparse pre seg rest b : length seg = length b ->
+  (sparse = true -> seg = zeros (length b)) ->
+  file_write sparse (pre ++ seg ++ rest) (length pre) b = pre ++ b ++ rest.
+Proof.
+  intros Hl Hz. unfold file_write. destruct sparse; [|apply write_at_seg; exact Hl].
+  specialize (Hz eq_refl). destruct (zp_split b) as [Hb Hle].
+  set (z := zero_prefix_len b) in *.
+  assert (Hs : seg = zeros z ++ zeros (length b - z)).
+  { rewrite Hz. rewrite <- zeros_app. f_equal. lia. }
+  rewrite Hs. rewrite <- app_assoc. rewrite (app_assoc pre (zeros z)).
+  replace (length pre + z) with (length (pre ++ zeros z)) by (rewrite app_length, zeros_length; reflexivity).
+  rewrite write_at_seg.
+  - rewrite <- app_assoc. f_equal. rewrite app_assoc. rewrite <- Hb. reflexivity.
+  - rewrite zeros_length, skipn_length. reflexivity.
+Qed.
+
+(* write_blobs with a local match list *)
+Fixpoint wb (sparse : bool) (ms : list bool) (d : data) (blobs : list data) (off : nat) : data :=
+  match blobs with
+  | [] => d
+  | b :: r => wb sparse (tl ms) (if hd false ms then d else file_write sparse d off b) r (off + length b)
+  end.
+
+Definition ms_of (st : fstate_t) : list bool := match st with Some (ms, _) => ms | None => [] end.
+
+Lemma nth_hd_skipn (l : list bool) : forall i, nth i l false = hd false (skipn i l).
+Proof. induction l as [|x l IH]; intros [|i]; cbn; try reflexivity. apply IH. Qed.
+
+Lemma tl_skipn {A} (l : list A) : forall i, tl (skipn i l) = skipn (S i) l.
+Proof.
+  intros i; revert l; induction i as [|i IH]; intros l.
+  - destruct l; reflexivity.
+  - destruct l as [|x l]; [reflexivity|]. cbn [skipn]. apply IH.
+Qed.
+
+Lemma has_match_hd st i : has_match st i = hd false (skipn i (ms_of st)).
+Proof. destruct st as [[ms s]|]; cbn [has_match ms_of]; [apply nth_hd_skipn | rewrite skipn_nil; reflexivity]. Qed.
+
+Lemma write_blobs_wb sparse st blobs : forall i d off,
+  write_blobs sparse st d blobs i off = wb sparse (skipn i (ms_of st)) d blobs off.
+Proof.
+  induction blobs as [|b r IH]; intros i d off; cbn [write_blobs wb]; [reflexivity|].
+  rewrite IH, has_match_hd, tl_skipn. reflexivity.
+Qed.
+
+(* what the remaining part of the file must look like for the writes to produce the content *)
+Fixpoint okp (sparse : bool) (ms : list bool) (rest : data) (blobs : list data) : Prop :=
+  match blobs with
+  | [] => rest = []
+  | b :: r =>
+      length b <= length rest /\
+      (hd false ms = true -> firstn (length b) rest = b) /\
+      (sparse = true -> hd false ms = false -> firstn (length b) rest = zeros (length b)) /\
+      okp sparse (tl ms) (skipn (length b) rest) r
+  end.
+
+Lemma wb_ok sparse blobs : forall ms pre rest, okp sparse ms rest blobs ->
+  wb sparse ms (pre ++ rest) blobs (length pre) = pre ++ concat blobs.
+Proof.
+  induction blobs as [|b r IH]; intros ms pre rest H; cbn [wb okp concat] in *.
+  - subst rest. reflexivity.
+  - destruct H as [Hlen [Hm [Hz Hr]]].
+    assert (Erest : rest = firstn (length b) rest ++ skipn (length b) rest) by (symmetry; apply firstn_skipn).
+    assert (Hsl : length (firstn (length b) rest) = length b) by (apply firstn_length_le; exact Hlen).
+    replace (length pre + length b) with (length (pre ++ b)) by apply app_length.
+    destruct (hd false ms) eqn:Eh.
+    + rewrite Erest, (Hm eq_refl). rewrite app_assoc. rewrite IH; [rewrite <- app_assoc; reflexivity | exact Hr].
+    + rewrite Erest at 1. rewrite file_write_seg; [| exact Hsl | intros Hs; apply Hz; auto].
+      rewrite app_assoc. rewrite IH; [rewrite <- app_assoc; reflexivity | exact Hr].
+Qed.
+
+Lemma wb_ok0 sparse blobs ms d : okp sparse ms d blobs -> wb sparse ms d blobs 0 = concat blobs.
+Proof. intros H. exact (wb_ok sparse blobs ms [] d H). Qed.
+
+Lemma okp_zeros sparse blobs : okp sparse [] (zeros (total blobs)) blobs.
+Proof.
+  induction blobs as [|b r IH]; cbn [okp hd tl].
+  - reflexivity.
+  - rewrite total_cons, zeros_app.
+    assert (Hl : length (zeros (length b)) = length b) by apply zeros_length.
+    split; [rewrite app_length, Hl; lia|]. split; [discriminate|]. split.
+    + intros _ _. rewrite <- Hl at 1. apply firstn_app_exact.
+    + rewrite <- Hl at 1. rewrite skipn_app_exact. exact IH.
+Qed.
+
+Lemma okp_any blobs : forall rest, length rest = total blobs -> okp false [] rest blobs.
+Proof.
+  induction blobs as [|b r IH]; intros rest Hl; cbn [okp hd tl].
+  - destruct rest; [reflexivity | discriminate].
+  - rewrite total_cons in Hl. split; [lia|]. split; [discriminate|]. split; [discriminate|].
+    apply IH. rewrite skipn_length. lia.
+Qed.
+
+(* what verifyFile's loop guarantees about the old content *)
+Fixpoint vm_ok (d0 : data) (ms : list bool) (blobs : list data) (off : nat) : Prop :=
+  match blobs with
+  | [] => True
+  | b :: r =>
+      (hd false ms = true -> off + length b <= length d0 /\ firstn (length b) (skipn off d0) = b) /\
+      vm_ok d0 (tl ms) r (off + length b)
+  end.
+
+Lemma vm_ok_allfalse d0 blobs : forall off, vm_ok d0 (map (fun _ => false) blobs) blobs off.
+Proof. induction blobs as [|b r IH]; intros off; cbn [vm_ok map hd tl]; [exact I | split; [discriminate | apply IH]]. Qed.
+
+Lemma vloop_ok d0 blobs : forall off sm ms s, vloop d0 blobs off sm = (ms, s) ->
+  vm_ok d0 ms blobs off /\ length ms = length blobs /\ (s = true -> sm = true).
+Proof.
+  induction blobs as [|b r IH]; intros off sm ms s H; cbn [vloop] in H.
+  - inversion H; subst. cbn. auto.
+  - destruct (Nat.leb (off + length b) (length d0)) eqn:El.
+    + destruct (vloop d0 r (off + length b) sm) as [ms' s'] eqn:Ev. inversion H; subst.
+      destruct (IH _ _ _ _ Ev) as [H1 [H2 H3]]. cbn [vm_ok hd tl length]. split; [split|split].
+      * intros Hm. apply data_eqb_spec in Hm. apply Nat.leb_le in El. split; [exact El | symmetry; exact Hm].
+      * exact H1.
+      * rewrite H2; reflexivity.
+      * exact H3.
+    + inversion H; subst. split; [apply (vm_ok_allfalse d0 (b :: r))|]. split; [cbn [length]; rewrite map_length; reflexivity | discriminate].
+Qed.
+
+Fixpoint allm (ms : list bool) (blobs : list data) : Prop :=
+  match blobs with
+  | [] => True
+  | _ :: r => hd false ms = true /\ allm (tl ms) r
+  end.
+
+Lemma allm_concat d0 blobs : forall ms off, vm_ok d0 ms blobs off -> allm ms blobs ->
+  firstn (total blobs) (skipn off d0) = concat blobs.
+Proof.
+  induction blobs as [|b r IH]; intros ms off Hv Ha; cbn [vm_ok allm concat] in *.
+  - reflexivity.
+  - destruct Hv as [Hb Hr]. destruct Ha as [Hh Ht]. destruct (Hb Hh) as [_ Hseg].
+    rewrite total_cons, firstn_add, Hseg. f_equal.
+    rewrite skipn_skipn'. apply IH with (ms := tl ms); assumption.
+Qed.
+
+Lemma all_true_allm blobs : forall ms, existsb negb ms = false -> length ms = length blobs -> allm ms blobs.
+Proof.
+  induction blobs as [|b r IH]; intros ms He Hl; cbn [allm]; [exact I|].
+  destruct ms as [|m ms']; [discriminate|]. cbn [existsb] in He. apply orb_false_iff in He as [Hm He].
+  cbn [hd tl]. split; [destruct m; [reflexivity | discriminate] | apply IH; [exact He | cbn in Hl; lia]].
+Qed.
+
+Lemma no_unmatched_allm st blobs : forall i, any_unmatched st blobs i false = false ->
+  allm (skipn i (ms_of st)) blobs.
+Proof.
+  induction blobs as [|b r IH]; intros i H; cbn [any_unmatched allm] in *; [exact I|].
+  apply orb_false_iff in H as [H1 H2]. cbn [negb orb] in H1. rewrite andb_true_r in H1.
+  apply negb_false_iff in H1. rewrite has_match_hd in H1. split; [exact H1|].
+  rewrite tl_skipn. apply IH; exact H2.
+Qed.
+
+Lemma any_unmatched_none blobs i : any_unmatched None blobs i false = match blobs with [] => false | _ => true end.
+Proof. destruct blobs; reflexivity. Qed.
+
+(* ensureSize / createFile *)
+Lemma ensure_size_sparse d0 size : ensure_size d0 size true = zeros size.
+Proof.
+  unfold ensure_size, truncate, pad.
+  assert (E : match d0 with [] => d0 | _ :: _ => [] end = []) by (destruct d0; reflexivity).
+  rewrite E. cbn [length app]. rewrite Nat.sub_0_r. rewrite <- (zeros_length size) at 1. apply firstn_all.
+Qed.
+
+Lemma ensure_size_len d0 size : length (ensure_size d0 size false) = size.
+Proof.
+  unfold ensure_size, pad. destruct (Nat.ltb size (length d0)) eqn:E.
+  - apply Nat.ltb_lt in E. apply firstn_length_le. lia.
+  - apply Nat.ltb_ge in E. rewrite app_length, zeros_length. lia.
+Qed.
+
+Lemma ensure_size_agree d0 size n : n <= length d0 -> n <= size ->
+  firstn n (ensure_size d0 size false) = firstn n d0.
+Proof.
+  intros H1 H2. unfold ensure_size, pad. destruct (Nat.ltb size (length d0)).
+  - rewrite firstn_firstn. f_equal. lia.
+  - rewrite firstn_app. replace (n - length d0) with 0 by lia. cbn. apply app_nil_r.
+Qed.
+
+Definition old_data (p : pre) : data :=
+  match p with PReg d false _ _ => d | _ => [] end.
+
+Lemma create_file_spec o p size sp dd : create_file o p size sp = Some dd -> dd = ensure_size (old_data p) size sp.
+Proof.
+  unfold create_file, old_data. destruct p as [|d hl rd me|ne|]; try (intros H; inversion H; reflexivity).
+  destruct (andb ne (negb (o_allow_rec o))); intros H; inversion H; reflexivity.
+Qed.
+
+Lemma okp_vm d0 d blobs : forall ms off, vm_ok d0 ms blobs off ->
+  length d = off + total blobs ->
+  (forall n, n <= length d0 -> n <= length d -> firstn n d = firstn n d0) ->
+  okp false ms (skipn off d) blobs.
+Proof.
+  induction blobs as [|b r IH]; intros ms off Hv Hl Ha; cbn [okp vm_ok] in *.
+  - apply skipn_all2. unfold total in Hl. cbn in Hl. lia.
+  - rewrite total_cons in Hl. destruct Hv as [Hb Hr].
+    split; [rewrite skipn_length; lia|]. split; [|split; [discriminate|]].
+    + intros Hh. destruct (Hb Hh) as [Hle Hseg].
+      rewrite firstn_skipn_comm. rewrite Ha; [|exact Hle | lia].
+      rewrite <- firstn_skipn_comm. exact Hseg.
+    + rewrite skipn_skipn'. apply IH; [exact Hr | lia | exact Ha].
+Qed.
+
+(* verifyFile's result when the if-changed shortcut does not apply *)
+Lemma verify_some o p blobs ms sm : trusted o p blobs = false -> verify o p blobs = Some (ms, sm) ->
+  exists d hl rd me, p = PReg d hl rd me /\
+    vloop d blobs 0 (Nat.eqb (total blobs) (length d)) = (ms, sm) /\
+    (hl = false \/ needs_restore (Some (ms, sm)) = false).
+Proof.
+  intros Ht Hv. unfold verify in Hv. destruct p as [|d hl rd me| |]; try discriminate.
+  unfold trusted in Ht. destruct (orb rd (o_root o)); [|discriminate].
+  assert (E : andb (andb match o_ow o with OwIfChanged => true | _ => false end me)
+                   (Nat.eqb (total blobs) (length d)) = false).
+  { destruct (o_ow o); try reflexivity. cbn [andb] in Ht |- *. exact Ht. }
+  rewrite E in Hv. exists d, hl, rd, me. split; [reflexivity|].
+  destruct (vloop d blobs 0 (Nat.eqb (total blobs) (length d))) as [ms0 sm0].
+  destruct hl; cbn [andb] in Hv.
+  - destruct (needs_restore (Some (ms0, sm0))) eqn:En; [discriminate|]. inversion Hv; subst. auto.
+  - inversion Hv; subst. auto.
+Qed.
+
+Lemma needs_restore_false ms sm : needs_restore (Some (ms, sm)) = false -> sm = true /\ existsb negb ms = false.
+Proof. cbn [needs_restore]. intros H. apply orb_false_iff in H as [H1 H2]. apply negb_false_iff in H1. auto. Qed.
+
+(* After a successful restore with --overwrite always / if-changed (outside the documented trust case)
+   the file has exactly the snapshot content: for every old state of the path, blob layout, sparse flag,
+   user and verify outcome. *)
+Theorem restore_exact o p blobs f :
+  should_overwrite o p = true -> trusted o p blobs = false ->
+  restore_file o p blobs = (f, false) -> f = FReg (concat blobs).
+Proof.
+  intros Hso Htr. unfold restore_file. cbv zeta. rewrite Hso. cbn [negb].
+  destruct (verify o p blobs) as [[ms sm]|] eqn:Ev.
+  - destruct (verify_some _ _ _ _ _ Htr Ev) as [d [hl [rd [me [-> [Hvl Hhl]]]]]].
+    destruct (vloop_ok _ _ _ _ _ _ Hvl) as [Hvm [Hlen Hsm]].
+    destruct (needs_restore (Some (ms, sm))) eqn:En; cbn [negb].
+    + (* restore needed: the old file is reused, it has a single link *)
+      destruct Hhl as [-> | Hhl]; [|discriminate].
+      destruct (any_unmatched (Some (ms, sm)) blobs 0 false) eqn:Eu; cbn [negb].
+      * (* some blobs are written *)
+        cbn [create_file]. intros H. inversion H; subst f. f_equal.
+        rewrite write_blobs_wb. cbn [ms_of skipn].
+        set (dd := ensure_size d (total blobs) false).
+        rewrite wb_ok0; [reflexivity|].
+        change dd with (skipn 0 dd). apply (okp_vm d dd blobs ms 0 Hvm).
+        -- unfold dd. rewrite ensure_size_len. reflexivity.
+        -- intros n H1 H2. unfold dd in *. rewrite ensure_size_len in H2. apply ensure_size_agree; assumption.
+      * (* every blob matches, only the size is wrong *)
+        cbn [create_file]. intros H. inversion H; subst f. f_equal.
+        pose proof (no_unmatched_allm _ _ _ Eu) as Ha. cbn [ms_of skipn] in Ha.
+        pose proof (allm_concat d blobs ms 0 Hvm Ha) as Hc. cbn [skipn] in Hc.
+        assert (Hle : total blobs <= length d).
+        { apply (f_equal (@length N)) in Hc. rewrite firstn_length in Hc. fold (total blobs) in Hc. lia. }
+        unfold ensure_size, pad. destruct (Nat.ltb (total blobs) (length d)) eqn:El; [exact Hc|].
+        apply Nat.ltb_ge in El. replace (total blobs - length d) with 0 by lia. cbn [zeros repeat]. rewrite app_nil_r.
+        rewrite <- Hc. symmetry. apply firstn_all2. lia.
+    + (* nothing to do: the old content is already the snapshot content *)
+      intros H. inversion H; subst f. cbn [state_of]. f_equal.
+      destruct (needs_restore_false _ _ En) as [-> He].
+      pose proof (all_true_allm blobs ms He Hlen) as Ha.
+      pose proof (allm_concat d blobs ms 0 Hvm Ha) as Hc. cbn [skipn] in Hc.
+      specialize (Hsm eq_refl). apply Nat.eqb_eq in Hsm. rewrite <- Hc, Hsm. symmetry. apply firstn_all.
+  - (* no reusable state: every blob is written *)
+    cbv beta iota. cbn [needs_restore negb]. rewrite any_unmatched_none.
+    destruct blobs as [|b0 r0].
+    + cbn [negb]. destruct (create_file o p (total []) false) as [dd|] eqn:Ec; [|discriminate].
+      intros H. inversion H; subst f. f_equal. apply create_file_spec in Ec. subst dd.
+      pose proof (ensure_size_len (old_data p) (total [])) as Hl.
+      change (total []) with 0 in Hl at 2. apply length_zero_iff_nil in Hl. rewrite Hl. reflexivity.
+    + cbn [negb].
+      remember (b0 :: r0) as blobs eqn:Eblobs.
+      set (sp := andb (o_sparse o) (orb (any_unmatched None blobs 0 true) (Nat.eqb (length blobs) 1))).
+      destruct (create_file o p (total blobs) sp) as [dd|] eqn:Ec; [|discriminate].
+      intros H. inversion H; subst f. f_equal. apply create_file_spec in Ec.
+      rewrite write_blobs_wb. cbn [ms_of]. rewrite skipn_nil.
+      rewrite wb_ok0; [reflexivity|].
+      destruct sp.
+      * rewrite Ec, ensure_size_sparse. apply okp_zeros.
+      * apply okp_any. rewrite Ec. apply ensure_size_len.
 Qed.
 
 (* non-vacuity / regression shape of the repaired F-C19: unreadable file, not root, sparse *)
@@ -83,4 +405,31 @@ Example c19_nonvacuous_reuse :
   restore_file (mkO OwIfChanged true true false true)
                (PReg [1;1;7;3;3;5;5]%N false true false) [[1;1;1]%N; [3;3]%N]
   = (FReg [1;1;1;3;3]%N, false).
+Proof. vm_compute. reflexivity. Qed.
+
+(* the documented if-changed shortcut: equal size and mtime => the file is not touched *)
+Lemma trusted_untouched o p blobs : trusted o p blobs = true -> restore_file o p blobs = (state_of p, false).
+Proof.
+  intros Ht. unfold trusted in Ht. destruct (o_ow o) eqn:Eo; try discriminate.
+  destruct p as [|d hl rd me| |]; try discriminate.
+  apply andb_true_iff in Ht as [Ht Hs]. apply andb_true_iff in Ht as [Hr Hm].
+  unfold restore_file, should_overwrite, verify. rewrite Eo, Hr, Hm, Hs. reflexivity.
+Qed.
+
+(* the model's own outcome always satisfies the oracle, i.e. the property *)
+Theorem model_satisfies_property o p blobs :
+  property o p blobs (fst (restore_file o p blobs)) (snd (restore_file o p blobs)) true.
+Proof.
+  unfold property. split; [reflexivity|]. split; [|split].
+  - intros H. rewrite (skip_untouched _ _ _ H). reflexivity.
+  - intros _ H. rewrite (trusted_untouched _ _ _ H). reflexivity.
+  - intros H1 H2 H3. destruct (restore_file o p blobs) as [f e] eqn:E. cbn [fst snd] in *. subst e.
+    eapply restore_exact; eauto.
+Qed.
+
+(* regression shape of the repaired F-C19b: second hard link, partly matching content *)
+Example c19_nonvacuous_hardlinked :
+  restore_file (mkO OwAlways true false false true)
+               (PReg [1;1;1;9;1;1;1;1]%N true true false) [[1;1;1;0]%N; [1;1;1;1]%N]
+  = (FReg [1;1;1;0;1;1;1;1]%N, false).
 Proof. vm_compute. reflexivity. Qed.
